@@ -258,6 +258,29 @@ def rule_text_section_predicate(ctx, R="C14/text-section"):
                   "build_id_generate_from_text does not select the section with find(is_executable_section)")
 
 
+def rule_header_tables(ctx, R="C14/header-tables"):
+    """the program / section header tables are read at e_phoff / e_shoff with exactly e_phentsize*e_phnum / e_shentsize*e_shnum bytes —
+    the entry size the FILE declares (40 vs 64 for sections, 32 vs 56 for segments, by ELF class), not a fixed one: a longer read runs off
+    the end of a 32-bit image whose section table is the last thing in the file, a shorter one truncates the table"""
+    for fn, off, esz, num in (("read_program_headers", "e_phoff", "e_phentsize", "e_phnum"), ("read_section_headers", "e_shoff", "e_shentsize", "e_shnum")):
+        b = ctx.body(R, MR + "::ModuleReader::" + fn)
+        if b is None:
+            continue
+        o = Origin(b)
+        reads = [bi for bi, t in b.calls(lambda c: (c.short or "").endswith("ProcessMemory::read"))]
+        ctx.floor(R, "table read in " + fn, len(reads), 1)
+        for bi in reads:
+            a = o.call_args(bi)
+
+            def hdr(e, name):
+                e = core(e)
+                return e[0] == "field" and e[2] == name and core(e[1])[0] == "field" and core(e[1])[2] == "header"
+            ln = core(a[2])
+            okl = ln[0] == "bin" and ln[1] == "Mul" and ((hdr(ln[2], esz) and hdr(ln[3], num)) or (hdr(ln[3], esz) and hdr(ln[2], num)))
+            ctx.check(hdr(a[1], off) and okl, R, (fn, "extent"), b.where(bi), "%s reads header.%s * header.%s bytes at header.%s" % (fn, esz, num, off),
+                      "%s reads %s bytes at %s (expected header.%s * header.%s at header.%s)" % (fn, show(ln)[:90], show(core(a[1]))[:40], esz, num, off))
+
+
 def run(ctx):
     from rules import preds
     preds.run(ctx, PROPERTY, ['is_process_memory', 'dynamic-segment', 'dynamic-section'])   # the opaque predicates these rules lean on, against oracle tables
@@ -265,4 +288,5 @@ def run(ctx):
     rule_strategy_order(ctx)
     rule_scan_all_notes(ctx)
     rule_text_section_predicate(ctx)
+    rule_header_tables(ctx)
     rule_mem_file_siblings(ctx)
